@@ -114,6 +114,16 @@ WHOLE_TREE = [
      'what': "every  a.b == 'c'  becomes  'c' == a.b"},
     {'id': 'whole-tree-aug-expand', 'kind': 'silent', 'transform': 'aug_expand_tree',
      'what': 'n += 1 becomes n = n + 1 for plain names'},
+    {'id': 'whole-tree-ret-via-local', 'kind': 'silent', 'transform': 'ret_via_local_tree',
+     'what': 'return EXPR becomes result_ = EXPR; return result_'},
+    {'id': 'whole-tree-continue-guard', 'kind': 'silent', 'transform': 'continue_guard_tree',
+     'what': 'loop bodies of the form `if c: continue; REST` become `if not c: REST`'},
+    {'id': 'whole-tree-nest-and', 'kind': 'silent', 'transform': 'nest_and_tree',
+     'what': '`if a and b: X` (no else) becomes nested ifs'},
+    {'id': 'whole-tree-early-return', 'kind': 'silent', 'transform': 'early_return_tree',
+     'what': 'a function ending in `if c: BLOCK` becomes `if not c: return; BLOCK`'},
+    {'id': 'whole-tree-sort-methods', 'kind': 'silent', 'transform': 'sort_methods_tree',
+     'what': 'methods of a class are put in alphabetical order'},
 ]
 
 
